@@ -35,18 +35,29 @@ def beh_file(path, universe, behs):
 
 
 def run_poolsim(ctx, args, timeout, what):
+    """poolsim exit codes: 0 ok; 3 harness trouble (its own panics, hangs, slow machine ...) -> Infra; 4 a fault of the real
+    code attributed by the driver itself (panic raised inside thor, goroutine stuck on a thor lock; stacks in the output)
+    -> violation.  Anything else (OOM kill, Go runtime fatal error, timeout) is infrastructure trouble, never a verdict -
+    except the one runtime fatal error that is thor's doing: concurrent map access inside the txpool package."""
     binp = ctx.build("poolsim")
     rc, o = ctx.run([binp] + args, timeout=timeout)
+    if rc == 0:
+        return o
+    if rc == 4:
+        m = re.search(r"THOR-FAULT kind=(\w+) where=(.*)", o)
+        kind = m.group(1) if m else "fault"
+        rp = ctx.save_replay("%s-%s-seed%d.txt" % (kind, what, ctx.seed), o[-60000:])
+        report_once(ctx, "%s:%s" % (kind, what),
+                    "real code %s in poolsim (%s): %s" % ("panicked" if kind == "panic" else "is stuck", what,
+                                                         m.group(0)[:300] if m else o[-300:]), lambda: rp)
+        return None
+    if rc is not None and "fatal error: concurrent map" in o and "thor/v2/txpool." in o.split("fatal error: concurrent map")[1][:4000]:
+        rp = ctx.save_replay("mapaccess-%s-seed%d.txt" % (what, ctx.seed), o[-60000:])
+        report_once(ctx, "fatal:concurrent-map:" + what, "Go runtime: concurrent map access inside thor/v2/txpool (%s)" % what, lambda: rp)
+        return None
     if rc == 3:
         raise Infra("poolsim harness error (%s): %s" % (what, o[-1500:]))
-    if rc != 0:
-        if rc is not None and ("panic:" in o or "goroutine " in o or "fatal error" in o):
-            rp = ctx.save_replay("panic-%s-seed%d.txt" % (what, ctx.seed), o[-20000:])
-            first = [l for l in o.splitlines() if l.startswith(("panic:", "fatal error"))][:1]
-            ctx.report("panic:" + what, "real code panicked in poolsim (%s): %s" % (what, first), rp)
-            return None
-        raise Infra("poolsim failed rc=%s (%s): %s" % (rc, what, o[-2000:]))
-    return o
+    raise Infra("poolsim failed rc=%s (%s): %s" % (rc, what, o[-2000:]))
 
 
 # ------------------------------------------------------------------------------- regression: the code as it is (F6)
@@ -79,6 +90,8 @@ def replay_f6(ctx, uni, behs):
     res = json.load(open(os.path.join(d, "replay.json")))
     ctx.cov["evaluations"] += len(res["runs"])
     for run in res["runs"]:
+        if run.get("discarded"):
+            raise Infra("the F6 regression replay was too slow for its wall-clock facts: " + run["discarded"])
         ctx.cov["traces_validated_against_impl"] += 1
         if run.get("violations"):
             v = run["violations"][0]
@@ -91,6 +104,10 @@ def replay_f6(ctx, uni, behs):
                             "how": "bin/check C18 (TLC counterexample of MCPool_asis.cfg replayed on the real pool)",
                             "universe": uni, "behaviour": behs[0], "result": run, "offending_index": v["index"]}))
         ctx.sample({"f6_counterexample_actions": run["actions"], "violations_on_real_pool": len(run.get("violations") or [])})
+    tpath = path + ".trace.ndjson"
+    if os.path.exists(tpath) and not ctx.violations:
+        # on a tree where promote compares identity the replayed counterexample is an ordinary behaviour: its trace must be accepted
+        validate_events(ctx, read_ndjson(tpath), None, "f6-replay-trace", dict(source="trace of the replayed F6 counterexample"), count=False)
 
 
 # ------------------------------------------------------------------------------------------- model -> implementation
@@ -119,6 +136,9 @@ def export_and_replay(ctx, num, depth=31, label="export"):
     res = json.load(open(os.path.join(d, "replay.json")))
     nontrivial = set()
     for run in res["runs"]:
+        if run.get("discarded"):
+            ctx.cov["runs_discarded_slow"] = ctx.cov.get("runs_discarded_slow", 0) + 1
+            continue
         ctx.cov["evaluations"] += 1
         mm = run.get("mismatch")
         if mm is None and not run.get("violations"):
@@ -240,6 +260,9 @@ def record_and_validate(ctx, runs, scen, sched, label, seed_offset=0):
     if o is None:
         return [], []
     stats = json.load(open(os.path.join(d, "runs.json")))
+    # a run whose logged wall-clock facts (sync status of its heads) no longer hold at its end is no evidence and no verdict
+    ctx.cov["runs_discarded_slow"] = ctx.cov.get("runs_discarded_slow", 0) + sum(1 for s in stats if s.get("discarded"))
+    stats = [s for s in stats if not s.get("discarded")]
     events = read_ndjson(os.path.join(d, "trace.ndjson"))
     ctx.cov["evaluations"] += len(stats)
     # direct oracles of the driver (accounting recomputed from the snapshot, Adopt on a real packer flow, order)
@@ -260,6 +283,33 @@ def record_and_validate(ctx, runs, scen, sched, label, seed_offset=0):
                     "events": len(accepted[0]["events"]),
                     "some_lock_events": [e for e in accepted[0]["events"] if e["e"] in ("add", "remove", "promote", "add_payer")][:4]}, limit=8)
     return stats, accepted
+
+
+def real_loop(ctx, runs):
+    """The pool's own housekeeping goroutine (txpool.New, 1 s ticker) next to a manually driven pool: direct oracles on the
+    real loop's publications; disagreement between the two with the oracles satisfied is drift of the hook's transcription."""
+    d = ctx.tmp("realloop")
+    o = run_poolsim(ctx, ["-mode", "realloop", "-runs", str(runs), "-seed", str(ctx.seed * 17 + 3), "-out", d], 600, "realloop")
+    if o is None:
+        return
+    res = json.load(open(os.path.join(d, "realloop.json")))
+    ok = 0
+    for r in res:
+        if r.get("discarded"):
+            ctx.cov["runs_discarded_slow"] = ctx.cov.get("runs_discarded_slow", 0) + 1
+            continue
+        ctx.cov["evaluations"] += 1
+        for v in (r.get("violations") or [])[:1]:
+            report_once(ctx, "oracle:realloop:" + v["kind"], v["detail"],
+                        lambda r=r: ctx.save_replay("realloop-seed%s.json" % r["seed"], dict(r, offending_index=r["violations"][0]["index"])))
+        if r.get("drift") and not r.get("violations"):
+            ctx.cov.setdefault("hook_drift", []).extend(r["drift"][:2])
+        if not r.get("violations") and not r.get("drift"):
+            ok += 1
+            if r["washesSeen"] < 2 or r["published"] == 0:
+                raise Infra("real housekeeping loop run is vacuous: %s" % r)
+    ctx.cov["real_housekeeping_loop_runs"] = ok
+    ctx.cov["traces_validated_against_impl"] += ok
 
 
 def binding_demo(ctx, accepted):
